@@ -52,7 +52,9 @@ CONSTANTS NW,             \* number of collector workers (1..3)
           MaxChanges,     \* bound on configuration changes in one run
           Faithful,       \* registry key: FALSE ideal, TRUE as makeDynsamplerKey
           ShareIdentical, \* see above
-          CachedDecide    \* include the (stuttering) decisions that hit a worker's cache
+          CachedDecide,   \* include the (stuttering) decisions that hit a worker's cache
+          AtomicReload    \* TRUE: a configuration change and the monitor's reloadConfigs are one
+                          \* step (the grain at which the real InMemCollector can be driven)
 
 VARIABLES sc,        \* the scenario [i, a |-> file, b |-> file, tab |-> its definitions]; never changes
           nchg,      \* configuration changes so far (file a is loaded iff even)
@@ -142,10 +144,10 @@ Scenarios ==
          {PairScenario(Base("tt"), 1), PairScenario(Base("wt"), 3), PairScenario(Base("ed"), 4),
           AliasScenario("dy")}
     [] Family = "c12-full" ->
-         {PairScenario(Base(t), v) : t \in TputTypes, v \in 0..5}
-         \cup {PairScenario(Base(t), v) : t \in DynTypes, v \in {0, 1, 2, 4, 5}}
-         \cup {DetScenario}
-         \cup {AliasScenario(t) : t \in {"tt", "dy", "wt"}}
+         {PairScenario(Base(t), v) : t \in TputTypes \cup DynTypes, v \in {1, 2, 4}}
+         \cup {PairScenario(Base(t), 3) : t \in TputTypes}
+         \cup {PairScenario(Base("tt"), 0), PairScenario(Base("ed"), 0), PairScenario(Base("et"), 5), DetScenario}
+         \cup {AliasScenario(t) : t \in {"tt", "dy"}}
     [] Family = "c13-quick" ->
          {MixByDest("tt", 1), MixByRule("wt", 2), MixCollide("et", 10)}
     [] Family = "c13-full" ->
@@ -265,6 +267,7 @@ Decide(w, d) ==
 \* the rules file changes on disk and config.Reload applies it: samplers created from
 \* now on use the new file; the reload callback posts one signal (non-blocking)
 ConfigChange ==
+  /\ ~AtomicReload
   /\ nchg < MaxChanges
   /\ sc.a # sc.b
   /\ nchg' = nchg + 1
@@ -298,6 +301,19 @@ WorkerReload(w) ==
   /\ UNCHANGED <<sc, nchg, reloadSig, toSignal, reg, epoch, peers, peerCount, cbPending, gauge, tainted>>
   /\ act' = [name |-> "WorkerReload", w |-> w]
 
+\* ConfigChange ; MonitorClear ; MonitorSignal (for every worker) as one step: the monitor
+\* goroutine cannot be held back between them, the workers can
+Reload ==
+  /\ AtomicReload
+  /\ nchg < MaxChanges
+  /\ sc.a # sc.b
+  /\ nchg' = nchg + 1
+  /\ reg' = {}
+  /\ epoch' = epoch + 1
+  /\ pending' = [w \in Workers |-> TRUE]
+  /\ UNCHANGED <<sc, reloadSig, toSignal, local, peers, peerCount, cbPending, gauge, tainted>>
+  /\ act' = [name |-> "Reload"]
+
 \* cluster membership changes; the peers implementation starts `go callback()`
 PeersChanged(n) ==
   /\ n # peers
@@ -317,6 +333,7 @@ PeerCallback ==
 
 Next == \/ \E w \in Workers, d \in Dests : Decide(w, d)
         \/ ConfigChange
+        \/ Reload
         \/ MonitorClear
         \/ MonitorSignal
         \/ \E w \in Workers : WorkerReload(w)
@@ -402,7 +419,7 @@ CacheStable ==
 
 \* instances are only ever dropped from the registry by ClearDynsamplers
 RegistryMonotone ==
-  [][(\E e \in reg : \A f \in reg' : f.cr # e.cr) => act'.name = "MonitorClear"]_vars
+  [][(\E e \in reg : \A f \in reg' : f.cr # e.cr) => act'.name \in {"MonitorClear", "Reload"}]_vars
 
 \* sanity of the deviation: the short key really produces what C12 forbids
 \* (expected to FAIL with Faithful = TRUE, see MC_Samplers_bites.cfg)
